@@ -261,7 +261,8 @@ def format_(I, v, spec):
         return mk_str([FmtInt(v.t, spec)])
     if isinstance(v, SBool):
         if spec == "":
-            raise _I().Unsupported("format of symbolic bool")
+            # the text of a bool is one of two words: case split
+            return "True" if I.ctx.decide(v.t, "format-bool") else "False"
         return mk_str([FmtInt(term(v), spec)])
     if isinstance(v, SStr):
         if spec == "":
